@@ -1,4 +1,10 @@
 import PqlModel.Props.C12
+import PqlModel.Props.C12Fuel
 #print axioms Pql.C12.C12_scan_progress
 #print axioms Pql.C12.C12_scan_length_le
 #print axioms Pql.C12.C12_split_shorter
+#print axioms Pql.C12.parse_fuel_sufficient
+#print axioms Pql.C12.parse_fuel_sufficient_src
+#print axioms Pql.C12.C12_statement_fuel_bound
+#print axioms Pql.C12.C12_expr_fuel_bound
+#print axioms Pql.C12.C12_expr_fuel_slope_tight
